@@ -168,6 +168,18 @@ CHECKS["C13"] = dict(
          "watchdog. Partial: crash/hang/leak freedom of the operand compilers is observed, not proved.",
     design="4/C13", technique="Coq proof (reader bounds, outcome accounting over error sites regenerated from the C source) + systematic fault enumeration under sanitizers")
 
+CHECKS["C12"] = dict(
+    text="Machine-checked proof (Coq): (a) soundness of the executable image checker - what it accepts has allocations that are inside "
+         "the used part, never overlap and never use offset 0; every stored reference is null where allowed or the START of an "
+         "allocation large enough for its object; forward chains are finite, allocated, in the bucket of their first two characters "
+         "(case-folded for context rules) and ordered by the REGENERATED insertion condition; character records sit in their bucket "
+         "with translation rules before definitions; (b) the bump allocator for EVERY sequence of sizes: growth never changes earlier "
+         "offsets or sizes and its output passes the checker. Tied to the code by a walker (arena hook for exact extents) that dumps "
+         "the real image of shipped tables, generated tables and tables grown by run-time additions; the extracted checker judges each "
+         "dump. Partial: multipass byte code, match patterns and hyphenation states are not walked; outside fragment F the statement "
+         "is the checker's verdict per image.",
+    design="4/C12", technique="Coq-verified image checker (soundness proof) run on walker dumps of real compiled tables + allocator proof")
+
 PENDING = {}
 
 
